@@ -67,6 +67,18 @@ func (a *Analysis) classifyErr(v ssa.Value) errClass {
 			}
 			return errClass{Kind: "fresh", Call: x, Desc: "fmt.Errorf(non-constant format)"}
 		}
+		// a module helper that only ever returns a freshly created error (e.g. newError(text))
+		if f := x.Call.StaticCallee(); f != nil && f.Pkg != nil && a.P.InModule(f.Pkg) && len(f.Blocks) > 0 && f.Signature.Results().Len() == 1 {
+			allFresh := true
+			for _, ret := range returnsOf(f) {
+				if c := a.classifyErr(returnedValue(ret, 0)); c.Kind != "fresh" {
+					allFresh = false
+				}
+			}
+			if allFresh && !a.touchesPackageState(f) {
+				return errClass{Kind: "fresh", Call: x, Desc: fnKey(f) + "(…) = errors.New(…)"}
+			}
+		}
 		return errClass{Kind: "call", Call: x, Desc: "result of " + calleeName(x)}
 	case *ssa.Extract:
 		if c, ok := x.Tuple.(*ssa.Call); ok {
